@@ -319,7 +319,7 @@ func (tree *Tree[T]) Find(pattern string) *node[T] { return tree.node.find(patte
 // NOTE: 会检测 pattern 是否存在于 tree 中。
 func (tree *Tree[T]) URL(buf *errwrap.StringBuilder, pattern string, ps map[string]string) error {
 	n := tree.Find(pattern)
-	if n == nil {
+	if n == nil || n.size() == 0 { // 仅作为其它路由项前缀存在的节点并不是路由项
 		return fmt.Errorf("%s 并不是一条有效的注册路由项", pattern)
 	}
 
@@ -337,7 +337,7 @@ func (tree *Tree[T]) URL(buf *errwrap.StringBuilder, pattern string, ps map[stri
 		switch s.Type {
 		case syntax.String:
 			buf.WString(s.Value)
-		case syntax.Named, syntax.Regexp:
+		case syntax.Named, syntax.Regexp, syntax.Interceptor:
 			param, exists := ps[s.Name]
 			if !exists {
 				return fmt.Errorf("未找到参数 %s 的值", s.Name)
